@@ -93,18 +93,44 @@ def strip_comments(text: str) -> str:
     return "".join(out)
 
 
-def scan_forbidden() -> list[str]:
-    """Obligation of every check: no Admitted/admit/Axiom/Parameter/... anywhere in the development."""
+_REQ_RE = re.compile(r"(?:From\s+IRV\s+)?Require\s+(?:Import\s+|Export\s+)?([^.]*(?:\.[A-Za-z_][A-Za-z0-9_']*)*)\s*\.\s", re.S)
+
+
+def closure_files(root_v: str) -> list[str]:
+    """The .v files under coq/theories that root_v transitively Requires (logical prefix IRV)."""
+    seen, todo = [], [root_v]
+    while todo:
+        f = todo.pop()
+        if f in seen or not os.path.exists(f):
+            continue
+        seen.append(f)
+        with open(f, encoding="utf-8") as fh:
+            txt = strip_comments(fh.read())
+        pat = r"Require\s+(?:Import\s+|Export\s+)?((?:[\w']+(?:\.[\w']+)*\s*)+)\.(?=\s|$)"
+        for m in re.finditer(r"From\s+IRV\s+" + pat, txt):
+            for mod in m.group(1).split():
+                todo.append(os.path.join(THEORIES, *mod.split(".")) + ".v")
+        for m in re.finditer(pat, txt):
+            for mod in m.group(1).split():
+                if mod.startswith("IRV."):
+                    todo.append(os.path.join(THEORIES, *mod.split(".")[1:]) + ".v")
+    return seen
+
+
+def scan_forbidden(files: list[str] | None = None) -> list[str]:
+    """Obligation of every check: no Admitted/admit/Axiom/Parameter/... in the development
+    (files=None: every file under coq/theories; else the given dependency closure)."""
     bad = []
-    for root, _, files in os.walk(THEORIES):
-        for fn in files:
-            if fn.endswith(".v"):
-                p = os.path.join(root, fn)
-                with open(p, encoding="utf-8") as f:
-                    txt = strip_comments(f.read())
-                for ln, line in enumerate(txt.splitlines(), 1):
-                    if FORBIDDEN_RE.search(line):
-                        bad.append(f"{os.path.relpath(p, VERIF)}:{ln}: {line.strip()[:80]}")
+    if files is None:
+        files = []
+        for root, _, fs in os.walk(THEORIES):
+            files += [os.path.join(root, fn) for fn in fs if fn.endswith(".v")]
+    for p in sorted(files):
+        with open(p, encoding="utf-8") as f:
+            txt = strip_comments(f.read())
+        for ln, line in enumerate(txt.splitlines(), 1):
+            if FORBIDDEN_RE.search(line):
+                bad.append(f"{os.path.relpath(p, VERIF)}:{ln}: {line.strip()[:80]}")
     return bad
 
 
@@ -331,7 +357,9 @@ class Check:
         subdir = subdir or self.prop
         prop_v = os.path.join(THEORIES, subdir, "Property.v")
         names = property_theorems(prop_v)
-        bad = scan_forbidden()
+        closure = closure_files(prop_v)
+        self.coverage["proof_files"] = [os.path.relpath(f, COQ) for f in sorted(closure)]
+        bad = scan_forbidden(closure)
         self.obligations.append({"name": "no-admits-axioms-scan", "discharged": not bad,
                                  "assumptions": [], "detail": bad[:5]})
         if bad:
